@@ -114,13 +114,15 @@ fn check_receiver_clone_and_last_drop(n: usize) {
         let _ = s.close();
     }
     drop(r);
-    assert!(closed(&s) == (n == 1 || pre_closed), "[C11] the channel closes implicitly exactly when the LAST receiver handle is dropped");
+    // (the value check comes first: after a failed assert! nothing later on the path is checked, and losing a value that a
+    // live receiver could still reach is a C08 violation whatever the reason)
     let left = s.inner.channel.inner.lock().buffer.len();
     if n == 1 {
         assert!(left == 0, "[C11] dropping the last receiver discards the buffered values immediately");
     } else {
         assert!(left == 1, "[C08] [C11] buffered values are never discarded while another receiver can still reach them");
     }
+    assert!(closed(&s) == (n == 1 || pre_closed), "[C11] the channel closes implicitly exactly when the LAST receiver handle is dropped");
     core::mem::forget(s);
 }
 
